@@ -50,6 +50,7 @@ type Solver struct {
 	buf     strings.Builder
 	asserted []*Term
 	OneShots int
+	Retries  int
 }
 
 func Z3Argv() []string   { return []string{"z3", "-in", "-smt2"} }
@@ -305,7 +306,14 @@ func (s *Solver) CheckModel(c *Ctx, extra []*Term, want []*Term) (Result, []stri
 	case Unsat:
 		s.St.Unsat++
 	default:
-		s.St.Unknown++
+		// z3's incremental core occasionally gives up (or hits the soft timeout) on a query that a fresh
+		// process decides at once: retry one-shot before calling it unknown
+		s.St.Queries--
+		if !s.dead {
+			s.send("(pop 1)")
+		}
+		s.Retries++
+		return s.oneShotModel(c, extra, want)
 	}
 	if s.dead {
 		return Unknown, nil
